@@ -94,7 +94,10 @@ class Drv:
         tr["ev"] = stages
         # --- the pipeline itself ---
         pe = {"k": "pipeline", "exc": "", "rethex": "", "stephex": hx(int(zone2), e2, n2, float(hstep)), "htout": [0], "vout": [],
-              "vcv33": True, "vrethex": "", "vstephex": ahex(vl) if vl is not None else ""}
+              "vcv33": True, "vrethex": "", "vstephex": ahex(vl) if vl is not None else "",
+              "vin": [] if vin is None else [[E_(float(np.diagflat(vin)[i, j] if vin.shape == (3, 1) else vin[i, j])) for j in range(3)] for i in range(3)],
+              "pos1": [E_(lat), E_(lon)], "pos2": [E_(lat2), E_(lon2)], "xyz": [E_(x), E_(y), E_(z)], "p14": p14,
+              "neg": direction != "94to2020"}
         try:
             self.calls += 1
             vpass = None if vin is None else vin.copy()
